@@ -532,6 +532,27 @@ func okBoundsCallerChecks(p []byte) []byte {
 	return head4(p)
 }
 
+func okVarBoundTransitive(name [][]byte) int {
+	n := 0
+	for i := range name {
+		for j := 0; j < i; j++ {
+			n += len(name[j:])
+		}
+	}
+	return n
+}
+
+func badVarBoundNotTransitive(name [][]byte, k int) int {
+	n := 0
+	for i := range name {
+		for j := 0; j < k; j++ {
+			n += len(name[j:])
+		}
+		_ = i
+	}
+	return n
+}
+
 func badBoundsToArray(p []byte) [16]byte { return [16]byte(p) }
 
 func okBoundsToArrayChecked(p []byte) [16]byte {
